@@ -10,12 +10,25 @@ History format (JSON-able):
   ["send", rid, delay, then]            enqueue_event between two steps
   ["broadcast", ty, delay]              broadcast_event between two steps
   ["step", {"<agent id>": [[rid, delay, then], ...]}]     run one step; the listed agents send from act()
+  ["random_events", ty, num, delay, seed]    random.seed(seed); model.random_events(type, num, factory)
 delay: None (plain Event) or a decimal string ("0.3", "2"): DelayedEvent(delay=float/int of it);
-then:  [[rid, delay], ...]  events the receiver sends from inside its handler when it handles the event.
+then / script entries: EFFECTS executed by the handler / by act(), in order (wave 2):
+  ["send", rid, delay, then?, name?, exc?]  (old form [rid, delay] in a `then`, [rid, delay, then] in a script)
+  ["create", ty] ["delete", [ids]] ["configure", spec] ["reset"] ["broadcast", ty, delay]      population changes DURING the step
+  ["state", st]                             the agent sets its own state (extended histories only)
+A step whose script / pending handlers contain a non-send effect is sent to the model as ONE `stepx <prog>` request
+(Core `midStep`, user code interleaved); otherwise as `step` followed by the sends (Core `stepFn`).
+
+Extended histories (wave 2b, `run_xhistory`, model requests `x…`): additionally
+  ["createT", ty, state, [[state, [names]], ...]]   agent whose initialize() registers exactly this handler table
+  ["state", id, st]                                 agent.state = st between steps
+  ["send", rid, delay, then, name, exc]             exc: None | "KeyError" (swallowed) | "RuntimeError" (leaves run_step)
+states: 0 = "active", k = "s<k>"; event names: 0 = "ev", k = "ev<k>".
 """
 import json
 import os
 import math
+import random as _pyrandom
 from fractions import Fraction
 from common import *
 
@@ -34,6 +47,28 @@ def exact_steps(delay, dt):
     return max(0, math.ceil(Fraction(delay) / Fraction(dt)))
 
 
+def sname(k):
+    return "active" if k == 0 else f"s{k}"
+
+
+def ename(k):
+    return "ev" if k == 0 else f"ev{k}"
+
+
+def norm_eff(e, in_script):
+    """Effect in canonical form (list starting with the kind)."""
+    if isinstance(e[0], str):
+        if e[0] == "send":
+            e = list(e) + [None] * (6 - len(e))
+            return ["send", e[1], e[2], e[3] or [], e[4] or 0, e[5]]
+        return list(e)
+    return ["send", e[0], e[1], (e[2] if in_script and len(e) > 2 else []), 0, None]
+
+
+def is_pop_eff(e, in_script=False):
+    return norm_eff(e, in_script)[0] not in ("send", "state")
+
+
 class Sim:
     """The real BPTK_Py model with logging agents."""
 
@@ -43,16 +78,30 @@ class Sim:
 
         class LogAgent(Agent):
             def initialize(self):
-                self.register_event_handler(["active"], "ev", self.on_ev)
+                meta = sim.next_meta
+                if meta is None:
+                    self.register_event_handler(["active"], "ev", self.on_ev)
+                else:
+                    state, tbl = meta
+                    for st, names in tbl:
+                        self.eventHandlers.setdefault(sname(st), {})       # a state may have an empty table
+                        for nm in names:
+                            self.register_event_handler([sname(st)], ename(nm), self.on_ev)
+                    self.state = sname(state)
 
             def on_ev(self, event):
                 sim.handled.append((sim.step_no, self.id, event.data["seq"]))
-                for rid, delay in event.data["then"]:
-                    sim.send(self.id, rid, delay, [])
+                for eff in event.data["then"]:
+                    sim.do_effect(self, eff, False)
+                exc = event.data.get("exc")
+                if exc == "KeyError":
+                    raise KeyError("raised inside the handler")
+                if exc:
+                    raise RuntimeError("handler failed")
 
             def act(self, time, round_no, step_no):
-                for rid, delay, then in sim.script.get(str(self.id), []):
-                    sim.send(self.id, rid, delay, then)
+                for eff in sim.script.get(str(self.id), []):
+                    sim.do_effect(self, eff, True)
 
         self.dt = dt
         self.m = Model(starttime=0, stoptime=10 ** 6, dt=num(dt), name="c11", scheduler=SimultaneousScheduler(),
@@ -64,52 +113,102 @@ class Sim:
         self.handled = []          # (step, agent id, seq) in handler order
         self.sent = {}             # seq -> dict(rid, delay, sent_at)
         self.issued = []           # sends since the last flush, in issue order: (seq, rid, delay)
+        self.trace = []            # effects executed since the last flush, in execution order (canonical form + seq for sends)
         self.script = {}
         self.stats_base = 0
+        self.stats_valid = True    # event_statistics == handler invocations (not after a reset DURING a step)
+        self.next_meta = None
+        self.thens = {}            # seq -> effects of its handler, for events not yet handled
 
-    def make_event(self, sender, rid, delay, then):
+    def make_event(self, sender, rid, delay, then, name=0, exc=None):
         from BPTK_Py import Event, DelayedEvent
         seq = self.nseq
         self.nseq += 1
-        data = {"seq": seq, "then": [list(x) for x in then]}
-        ev = Event("ev", sender, rid, data) if delay is None else DelayedEvent("ev", sender, rid, num(delay), data)
-        self.sent[seq] = {"rid": rid, "delay": delay, "sent_at": self.step_no}
+        data = {"seq": seq, "then": [list(x) for x in then], "exc": exc}
+        ev = Event(ename(name), sender, rid, data) if delay is None else DelayedEvent(ename(name), sender, rid, num(delay), data)
+        self.sent[seq] = {"rid": rid, "delay": delay, "sent_at": self.step_no, "name": name, "exc": exc}
         self.issued.append((seq, rid, delay))
+        self.trace.append(["send", rid, delay, then, name, exc, seq])
+        if then:
+            self.thens[seq] = then
         return ev
 
-    def send(self, sender, rid, delay, then):
-        self.m.enqueue_event(self.make_event(sender, rid, delay, then))
+    def send(self, sender, rid, delay, then, name=0, exc=None):
+        self.m.enqueue_event(self.make_event(sender, rid, delay, then, name, exc))
+
+    def population(self, k, arg=None, arg2=None):
+        m = self.m
+        if k == "create":
+            m.create_agent(TYPES[arg], {})
+        elif k == "delete":
+            m.delete_agent(arg[0]) if len(arg) == 1 else m.delete_agents(list(arg))
+        elif k == "configure":
+            m.configure_agents([{"name": TYPES[t], "count": n} for t, n in arg])
+        elif k == "reset":
+            m.reset()                          # also empties event_statistics
+            self.stats_base = len(self.handled)
+        elif k == "broadcast":
+            m.broadcast_event(TYPES[arg], lambda aid: self.make_event(0, aid, arg2, []))
+
+    def do_effect(self, agent, eff, in_script):
+        """user code running inside a step (handler or act())"""
+        e = norm_eff(eff, in_script)
+        k = e[0]
+        if k == "send":
+            self.send(agent.id, e[1], e[2], e[3], e[4], e[5])
+        elif k == "state":
+            agent.state = sname(e[1])
+            self.trace.append(["state", agent.id, e[1]])
+        else:
+            if k == "reset":
+                self.stats_valid = False
+            if k != "broadcast":
+                self.trace.append(e)
+            self.population(k, *e[1:])
 
     def pending(self):
         s = {e.data["seq"] for e in self.m.events}
         for a in self.m.agents:
             s |= {e.data["seq"] for e in a.events}
+        s |= {e.data["seq"] for e in self.m.scheduler.delayed_events}
         return s
 
     def apply(self, op):
         """Runs one op. Returns the canonical reply line pieces: (kind, payload)."""
         m, k = self.m, op[0]
         self.issued = []
-        if k == "create":
-            m.create_agent(TYPES[op[1]], {})
-        elif k == "delete":
-            m.delete_agent(op[1][0]) if len(op[1]) == 1 else m.delete_agents(list(op[1]))
-        elif k == "configure":
-            m.configure_agents([{"name": TYPES[t], "count": n} for t, n in op[1]])
-        elif k == "reset":
-            m.reset()                          # also empties event_statistics
-            self.stats_base = len(self.handled)
+        self.trace = []
+        if k in ("create", "delete", "configure", "reset"):
+            self.population(k, *op[1:])
+        elif k == "createT":
+            self.next_meta = (op[2], op[3])
+            try:
+                m.create_agent(TYPES[op[1]], {})
+            finally:
+                self.next_meta = None
+        elif k == "state":
+            a = m.agent(op[1])
+            if a is not None:
+                a.state = sname(op[2])
         elif k == "send":
-            self.send(0, op[1], op[2], op[3])
+            e = norm_eff(op, True)
+            self.send(0, e[1], e[2], e[3], e[4], e[5])
         elif k == "broadcast":
-            m.broadcast_event(TYPES[op[1]], lambda aid: self.make_event(0, aid, op[2], []))
+            self.population("broadcast", op[1], op[2])
+        elif k == "random_events":
+            _pyrandom.seed(op[4])
+            m.random_events(TYPES[op[1]], op[2], lambda aid: self.make_event(0, aid, op[3], []))
         elif k == "step":
             self.script = op[1]
             before = {e.data["seq"] for e in m.events}
             n0 = len(self.handled)
             self.step_no += 1
-            m.scheduler.run_step(m, 0, self.step_no - 1, None, True)
-            self.script = {}
+            try:
+                m.scheduler.run_step(m, 0, self.step_no - 1, None, True)
+            finally:
+                self.script = {}
+                for _, _, q in self.handled[n0:]:
+                    self.thens.pop(q, None)
             hs = self.handled[n0:]
             gone = before - self.pending() - {h[2] for h in hs}
             return hs, sorted(gone)
@@ -123,6 +222,31 @@ def frac_str(delay):
 
 def send_line(rid, delay):
     return f"send {rid} 0" if delay is None else f"sendq {rid} {frac_str(delay)}"
+
+
+def eff_token(e, in_script):
+    """effect -> token of the `stepx` program"""
+    e = norm_eff(e, in_script)
+    k = e[0]
+    if k == "send":
+        return f"s{e[1]}/0" if e[2] is None else f"q{e[1]}/{frac_str(e[2])}"
+    if k == "create":
+        return f"c{e[1]}"
+    if k == "delete":
+        return "d" + (".".join(map(str, e[1])) or "-")
+    if k == "configure":
+        return "g" + (".".join(f"{t}:{n}" for t, n in e[1]) or "-")
+    if k == "reset":
+        return "r"
+    if k == "broadcast":
+        return f"b{e[1]}/0" if e[2] is None else f"p{e[1]}/{frac_str(e[2])}"
+    raise ValueError(e)
+
+
+def prog_string(script, thens):
+    ents = [f"A{a}=" + "|".join(eff_token(e, True) for e in effs) for a, effs in sorted(script.items(), key=lambda kv: int(kv[0])) if effs]
+    ents += [f"E{q}=" + "|".join(eff_token(e, False) for e in effs) for q, effs in sorted(thens.items()) if effs]
+    return ";".join(ents) or "-"
 
 
 def canon_handled(hs, sent_at):
@@ -150,8 +274,12 @@ class Shadow:
                     self.apply(("create", t))
         elif k == "reset":
             self.live = []
+        elif k == "createT":
+            self.live.append([self.next, op[1]]); self.next += 1
     def ids(self):
         return [a[0] for a in self.live]
+    def of_type(self, t):
+        return [a[0] for a in self.live if a[1] == t]
 
 
 def run_history(dt, ops):
@@ -161,21 +289,28 @@ def run_history(dt, ops):
     sim, sh = Sim(dt), Shadow()
     req, real = ["new", f"dt {frac_str(dt)}"], ["ok", "ok"]
     viol = []
-    live_at = {}                       # step -> ids alive during that step
+    live_at = {}                       # step -> ids alive at the start of that step
     gone_log = []                      # (step, seqs that left the queue without being handled) - evidence only
     raised = None
+    n_midstep = 0
     for op in ops:
         k = op[0]
-        sh.apply(op)
+        if k != "step":
+            sh.apply(op)
+        prog = None
         if k == "step":
             live_at[sim.step_no + 1] = sh.ids()
+            if any(is_pop_eff(e, True) for effs in op[1].values() for e in effs) or \
+               any(is_pop_eff(e) for effs in sim.thens.values() for e in effs):
+                prog = prog_string(op[1], sim.thens)
+        type_ids = sh.of_type(op[1]) if k == "random_events" else None
         try:
             out = sim.apply(op)
         except Exception as e:          # run_step must not raise on any history
             raised = (op, e)
             absent = sorted({v["rid"] for v in sim.sent.values()} - set(sh.ids()))
             viol.append(("receiver-lookup-raises" if isinstance(e, (IndexError, TypeError, AttributeError)) else "raises",
-                         f"step {sim.step_no}: run_step raises {type(e).__name__}: {e} "
+                         f"step {sim.step_no}: {k} raises {type(e).__name__}: {e} "
                          f"(live ids {sh.ids()}, receivers of sent events without a live agent: {absent})"))
             break
         sent_at = {s: v["sent_at"] for s, v in sim.sent.items()}
@@ -193,13 +328,37 @@ def run_history(dt, ops):
         elif k == "broadcast":
             req.append(f"broadcastq {op[1]} {frac_str(op[2])}" if op[2] is not None else f"broadcast {op[1]} 0")
             real.append("seqs=" + (",".join(f"{s}>{r}" for s, r, _ in sim.issued) or "-"))
+        elif k == "random_events":
+            rids = [r for _, r, _ in sim.issued]
+            want = min(op[2], len(type_ids))
+            if len(rids) != want or any(r not in type_ids for r in rids):
+                viol.append(("random-receiver", f"random_events({TYPES[op[1]]!r}, {op[2]}) with live ids {type_ids} of that type created events for {rids} "
+                                                f"(expected {want} events, each for a live agent of the type)"))
+                draws = [type_ids.index(r) if r in type_ids else 0 for r in rids]
+            else:
+                draws = [type_ids.index(r) for r in rids]
+            dr = ".".join(map(str, draws)) or "-"
+            req.append(f"randomeventsq {op[1]} {op[2]} {frac_str(op[3])} {dr}" if op[3] is not None else f"randomevents {op[1]} {op[2]} 0 {dr}")
+            real.append("seqs=" + (",".join(f"{s}>{r}" for s, r, _ in sim.issued) or "-"))
         elif k == "step":
             hs, gone = out
-            req.append("step")
-            real.append(f"step={sim.step_no};h={canon_handled([(a, s) for _, a, s in hs], sent_at)}")
+            for t in sim.trace:                      # what user code did to the population during the step, in order
+                if t[0] in ("create", "delete", "configure", "reset"):
+                    sh.apply(t)
             gone_log.append((sim.step_no, gone))
-            for seq, rid, delay in sim.issued:       # sends made during the step, in the order they happened
-                req.append(send_line(rid, delay)); real.append(f"seq={seq}")
+            if prog is None:
+                req.append("step")
+                real.append(f"step={sim.step_no};h={canon_handled([(a, s) for _, a, s in hs], sent_at)}")
+                for seq, rid, delay in sim.issued:       # sends made during the step, in the order they happened
+                    req.append(send_line(rid, delay)); real.append(f"seq={seq}")
+            else:
+                n_midstep += 1
+                req.append("stepx " + prog)
+                real.append(f"step={sim.step_no};h={canon_handled([(a, s) for _, a, s in hs], sent_at)};"
+                            f"e={','.join(f'{s}>{r}' for s, r, _ in sim.issued) or '-'};"
+                            f"a={','.join(str(a.id) for a in sim.m.agents) or '-'};stuck=0")
+                if [a.id for a in sim.m.agents] != sh.ids():
+                    viol.append(("population", f"step {sim.step_no}: live ids {[a.id for a in sim.m.agents]} after user code did {sim.trace}; expected {sh.ids()}"))
     # ---- reference check of the statement on the handler log
     by_seq = {}
     pending = sim.pending()
@@ -238,10 +397,90 @@ def run_history(dt, ops):
         recorded = sum(n for per in sim.m.data_collector.event_statistics.values() for n in per.values())
     except Exception:
         recorded = None
-    if raised is None and recorded is not None and recorded != len(sim.handled) - sim.stats_base:
+    if raised is None and sim.stats_valid and recorded is not None and recorded != len(sim.handled) - sim.stats_base:
         viol.append(("event-statistics", f"DataCollector.event_statistics counts {recorded} delivered events, {len(sim.handled) - sim.stats_base} handler invocations were logged since the last reset"))
     return {"req": req, "real": real, "viol": viol, "steps": sim.step_no, "nsent": sim.nseq, "nhandled": len(sim.handled),
-            "ndropped": sum(len(g) for _, g in gone_log)}
+            "ndropped": sum(len(g) for _, g in gone_log), "midsteps": n_midstep}
+
+
+# ------------------------------------------------------------------ extended histories (wave 2b)
+def tbl_str(tbl):
+    return ",".join(f"{st}:" + ".".join(map(str, names)) for st, names in tbl) or "-"
+
+
+def xsend_line(rid, delay, name, exc):
+    r = 1 if exc == "RuntimeError" else 0
+    return f"xsend {rid} 0 {name} {r}" if delay is None else f"xsendq {rid} {frac_str(delay)} {name} {r}"
+
+
+def run_xhistory(dt, ops):
+    """Real code on an extended history: handler tables, states without a table, unknown names, raising handlers.
+    Reference check = what the statement still guarantees there (Lean `XClauses`): only the addressed agent, at most
+    once, never before the due step."""
+    sim = Sim(dt)
+    m = sim.m
+    req, real = ["xnew", f"dt {frac_str(dt)}"], ["ok", "ok"]
+    viol = []
+    aborted = 0
+    for op in ops:
+        k = op[0]
+        ab = 0
+        try:
+            out = sim.apply(op)
+        except RuntimeError as e:
+            if k != "step" or "handler failed" not in str(e):
+                viol.append(("raises", f"step {sim.step_no}: {k} raises {type(e).__name__}: {e}"))
+                break
+            ab, aborted = 1, aborted + 1
+            out = None
+        except Exception as e:
+            viol.append(("raises", f"step {sim.step_no}: {k} raises {type(e).__name__}: {e}"))
+            break
+        sent_at = {s: v["sent_at"] for s, v in sim.sent.items()}
+        if k == "create":
+            req.append(f"xcreate {op[1]}"); real.append("ok")
+        elif k == "createT":
+            req.append(f"xcreatet {op[1]} {op[2]} {tbl_str(op[3])}"); real.append("ok")
+        elif k == "delete":
+            req.append("xdelete " + (",".join(map(str, op[1])) or "-")); real.append("ok")
+        elif k == "configure":
+            req.append("xconfigure " + (",".join(f"{t}:{n}" for t, n in op[1]) or "-")); real.append("ok")
+        elif k == "reset":
+            req.append("xreset"); real.append("ok")
+        elif k == "state":
+            req.append(f"xstate {op[1]} {op[2]}"); real.append("ok")
+        elif k == "send":
+            t, = sim.trace
+            req.append(xsend_line(t[1], t[2], t[4], t[5])); real.append(f"seq={t[6]}")
+        elif k == "broadcast":
+            req.append(f"xbroadcastq {op[1]} {frac_str(op[2])}" if op[2] is not None else f"xbroadcast {op[1]} 0")
+            real.append("seqs=" + (",".join(f"{s}>{r}" for s, r, _ in sim.issued) or "-"))
+        elif k == "step":
+            hs = [h for h in sim.handled if h[0] == sim.step_no]
+            inb = ",".join(f"{a.id}:" + ".".join(map(str, sorted(e.data["seq"] for e in a.events))) for a in m.agents if a.events) or "-"
+            req.append("xstep")
+            real.append(f"step={sim.step_no};h={canon_handled([(a, s) for _, a, s in hs], sent_at)};ab={ab};in={inb}")
+            for t in sim.trace:
+                if t[0] == "send":
+                    req.append(xsend_line(t[1], t[2], t[4], t[5])); real.append(f"seq={t[6]}")
+                elif t[0] == "state":
+                    req.append(f"xstate {t[1]} {t[2]}"); real.append("ok")
+    by_seq = {}
+    for st, agent, seq in sim.handled:
+        by_seq.setdefault(seq, []).append((st, agent))
+    for seq, hs in sorted(by_seq.items()):
+        v = sim.sent[seq]
+        due = v["sent_at"] + 1 + exact_steps(v["delay"], dt)
+        what = f"event #{seq} ({ename(v['name'])}) to id {v['rid']} sent in step {v['sent_at']}" + (f" with delay {v['delay']} (dt {dt})" if v["delay"] is not None else "")
+        for st, agent in hs:
+            if agent != v["rid"]:
+                viol.append(("wrong-receiver", f"{what} was handled by the agent with id {agent} in step {st}"))
+            if st < due:
+                viol.append(("early", f"{what} was handled in step {st}, before its due step {due}"))
+        if len(hs) > 1:
+            viol.append(("not-once", f"{what} was handled {len(hs)} times: {hs}"))
+    return {"req": req, "real": real, "viol": viol, "steps": sim.step_no, "nsent": sim.nseq, "nhandled": len(sim.handled),
+            "aborted": aborted, "held": sum(len(a.events) for a in m.agents)}
 
 
 # ------------------------------------------------------------------ probes (one per repaired mechanism)
@@ -294,6 +533,10 @@ def gen_lean(f):
             f"def facts : Facts := {{ routesById := {b(f['routesById'])}, delayStepsExact := {b(f['delayStepsExact'])}, "
             f"requeueFifo := {b(f['requeueFifo'])} }}\n" + body +
             "theorem holds : C11_full := C11_full_proved\n#print axioms holds\n"
+            "theorem holds_midstep : type_of% @C11_midstep := @C11_midstep\n#print axioms holds_midstep\n"
+            "theorem holds_extended : type_of% @C11_x_partial := @C11_x_partial\n#print axioms holds_extended\n"
+            "theorem holds_refinement : type_of% @C11_full_x := @C11_full_x\n#print axioms holds_refinement\n"
+            "theorem holds_float_conversion : type_of% @delay_float_steps := @delay_float_steps\n#print axioms holds_float_conversion\n"
             "end Bptk.C11.Gen\n")
 
 
@@ -345,17 +588,199 @@ def rand_history(rng, dt):
     return ops
 
 
-def small_histories(L):
+def rand_midstep_history(rng, dt):
+    """Histories whose steps change the population from act() and from handlers (wave 2a)."""
+    sh, ops = Shadow(), []
+    ds = delays_for(dt)
+    def target():
+        ids = sh.ids()
+        if ids and rng.chance(3, 4):
+            return rng.choice(ids)
+        return rng.below(sh.next + 3)           # deleted, never created, created later, or by chance alive
+    def pop_eff():
+        r = rng.below(8)
+        if r < 3:
+            return ["create", rng.below(2)]
+        if r < 5:
+            return ["delete", sorted({target() for _ in range(rng.range(1, 2))})]
+        if r < 6:
+            return ["configure", [[rng.below(2), rng.range(0, 3)] for _ in range(rng.range(1, 2))]]
+        if r < 7:
+            return ["reset"]
+        return ["broadcast", rng.below(2), rng.choice(ds)]
+    def effs(n, in_script):
+        out = []
+        for _ in range(n):
+            if rng.chance(1, 2):
+                out.append(pop_eff())
+            else:
+                th = effs(rng.below(3), False) if in_script and rng.chance(1, 3) else []
+                out.append(["send", target(), rng.choice(ds), th] if in_script else ["send", target(), rng.choice(ds)])
+        return out
+    for _ in range(rng.range(3, 6)):
+        sh.apply(["create", rng.below(2)]); ops.append(["create", sh.live[-1][1]])
+    for _ in range(rng.range(5, 30)):
+        r = rng.below(20)
+        if r < 2:
+            op = ["create", rng.below(2)]
+        elif r < 3 and sh.live:
+            op = ["delete", [rng.choice(sh.ids())]]
+        elif r < 8:
+            op = ["send", target(), rng.choice(ds), effs(rng.below(3), False) if rng.chance(1, 2) else []]
+        elif r < 9:
+            op = ["broadcast", rng.below(2), rng.choice(ds)]
+        else:
+            script = {}
+            cand = sh.ids() + [sh.next, sh.next + 1]          # agents created during the step act in the same step
+            for i in cand:
+                if rng.chance(1, 3):
+                    script[str(i)] = effs(rng.range(1, 3), True)
+            op = ["step", script]
+            for i in cand:                                     # approximate population after the step (targets only)
+                for e in script.get(str(i), []):
+                    if e[0] in ("create", "delete", "configure", "reset"):
+                        sh.apply(e)
+        if op[0] != "step":
+            sh.apply(op)
+        ops.append(op)
+    ops += [["step", {}]] * rng.range(2, 8)
+    return ops
+
+
+def reconf_history(rng, dt):
+    """Reconfiguration to the SAME agent count / reset followed by creations, with events queued across it (the
+    class of the seeded defect `stale agent index`: anything cached per list identity or length goes stale here)."""
+    sh, ops = Shadow(), []
+    ds = delays_for(dt)
+    counts = [rng.range(0, 3), rng.range(0, 3)]
+    if sum(counts) == 0:
+        counts[0] = 2
+    def emit(op):
+        sh.apply(op); ops.append(op)
+    emit(["configure", [[0, counts[0]], [1, counts[1]]]])
+    for _ in range(rng.range(2, 5)):
+        for _ in range(rng.range(1, 5)):
+            ids = sh.ids()
+            rid = rng.choice(ids) if ids and rng.chance(3, 4) else rng.below(sh.next + 2)
+            emit(["send", rid, rng.choice(ds), []])
+        for _ in range(rng.range(0, 2)):
+            emit(["step", {}])
+        r = rng.below(4)
+        if r == 0:
+            emit(["configure", [[0, counts[0]], [1, counts[1]]]])                  # same types, same counts
+        elif r == 1:
+            emit(["configure", [[1, counts[1]], [0, counts[0]]]])                  # same count, other order
+        elif r == 2:
+            emit(["reset"])
+            for t in (0, 1):
+                for _ in range(counts[t]):
+                    emit(["create", t])
+        else:
+            n = len(sh.live)
+            emit(["delete", sh.ids()])
+            for _ in range(n):
+                emit(["create", rng.below(2)])
+        for _ in range(rng.range(1, 4)):
+            ids = sh.ids()
+            old = rng.below(max(1, sh.next - len(ids)))                             # an id of the discarded population
+            emit(["send", rng.choice(ids) if ids and rng.chance(2, 3) else old, rng.choice(ds), []])
+        if rng.chance(1, 2):
+            emit(["random_events", rng.below(2), rng.range(0, 4), rng.choice(ds), rng.below(10 ** 6)])
+        emit(["step", {}])
+    ops += [["step", {}]] * rng.range(2, 8)
+    return ops
+
+
+TABLES = [
+    (0, [[0, [0]]]),                    # as a base agent
+    (0, [[0, [0, 1]]]),                 # two names
+    (0, [[0, [0]], [1, []]]),           # state 1 has an empty table: everything is popped and discarded there
+    (1, [[0, [0]]]),                    # starts in a state without table
+    (0, [[1, [0, 1]]]),                 # no table for the initial state
+    (0, [[0, [1]], [1, [0]]]),          # the name that is handled depends on the state
+]
+
+
+def rand_xhistory(rng, dt):
+    sh, ops = Shadow(), []
+    ds = delays_for(dt)
+    def target():
+        ids = sh.ids()
+        if ids and rng.chance(4, 5):
+            return rng.choice(ids)
+        return rng.below(sh.next + 2)
+    def exc():
+        r = rng.below(12)
+        return "RuntimeError" if r == 0 else ("KeyError" if r < 3 else None)
+    def name():
+        return rng.choice([0, 0, 0, 0, 1, 2])
+    def then():
+        out = []
+        for _ in range(rng.below(3) if rng.chance(1, 3) else 0):
+            out.append(["state", rng.below(3)] if rng.chance(1, 2) else ["send", target(), rng.choice(ds), [], name(), exc()])
+        return out
+    def emit(op):
+        sh.apply(op); ops.append(op)
+    for _ in range(rng.range(5, 40)):
+        r = rng.below(24)
+        if r < 2 or (not sh.live and r < 10):
+            emit(["create", rng.below(2)])
+        elif r < 5 or (len(sh.live) < 2 and r < 12):
+            st, tbl = rng.choice(TABLES)
+            emit(["createT", rng.below(2), st, tbl])
+        elif r < 6 and sh.live:
+            emit(["delete", [rng.choice(sh.ids())]])
+        elif r < 7:
+            emit(["configure", [[rng.below(2), rng.range(0, 2)]]] if rng.chance(1, 2) else ["reset"])
+        elif r < 10 and sh.live:
+            emit(["state", rng.choice(sh.ids()), rng.below(3)])
+        elif r < 16:
+            emit(["send", target(), rng.choice(ds), then(), name(), exc()])
+        elif r < 17:
+            emit(["broadcast", rng.below(2), rng.choice(ds)])
+        else:
+            script = {}
+            for i in sh.ids():
+                if rng.chance(1, 5):
+                    script[str(i)] = [["send", target(), rng.choice(ds), then(), name(), exc()] for _ in range(rng.range(1, 2))]
+            emit(["step", script])
+    for i in sh.ids():
+        if rng.chance(1, 2):
+            emit(["state", i, 0])
+    ops += [["step", {}]] * rng.range(2, 8)
+    return ops
+
+
+# the four kernel-checked witnesses of Props/C11 (X_witness_*), replayed on the real Agent.handle_events
+X_WITNESSES = [
+    [["create", 0], ["state", 0, 1], ["send", 0, None, [], 0, None], ["step", {}], ["step", {}], ["state", 0, 0], ["step", {}]],
+    [["create", 0], ["state", 0, 1], ["send", 0, None, [], 0, None], ["send", 0, "1", [], 0, None], ["step", {}], ["step", {}],
+     ["state", 0, 0], ["step", {}]],
+    [["create", 0], ["create", 0], ["send", 0, None, [], 0, "RuntimeError"], ["send", 1, None, [], 0, None],
+     ["send", 1, "1", [], 0, None], ["step", {}], ["step", {}], ["step", {}]],
+    [["create", 0], ["send", 0, None, [], 1, None], ["step", {}], ["state", 0, 1], ["send", 0, None, [], 0, None], ["step", {}],
+     ["delete", [0]], ["step", {}]],
+]
+X_WITNESS_EXPECT = ["3:[0]", "3:[1, 0]", "1:[0] 2:[1] 3:[2]", ""]      # handler log "step:[seqs]" as the theorems state it
+
+
+def small_histories(L, wide=False):
     """All histories of length L over a small alphabet instantiated on the live population, each followed by
-    flushing steps."""
+    flushing steps. `wide`: the alphabet also has reset and two steps whose act() changes the population."""
     out = []
     def alphabet(sh):
         ops = [["create", 0], ["step", {}], ["send", sh.next + 1, None, []]]
         ids = sh.ids()
+        if wide:
+            ops.append(["reset"])
         if ids:
             o, n = ids[0], ids[-1]
             ops += [["delete", [o]], ["send", n, None, []], ["send", n, "1", []], ["send", o, "2", []], ["configure", [[0, 2]]],
                     ["step", {str(o): [[n, "1", []], [n, None, []]]}]]
+            if wide:
+                ops += [["step", {str(o): [["create", 0], ["delete", [n]], ["send", n, None, []], ["send", sh.next, None, []]],
+                                  str(sh.next): [["send", o, None, []]]}],
+                        ["step", {str(n): [["configure", [[0, len(ids)]]], ["broadcast", 0, "1"], ["send", o, None, []]]}]]
         return ops
     def rec(prefix, sh, depth):
         if depth == L:
@@ -363,7 +788,13 @@ def small_histories(L):
             return
         for op in alphabet(sh):
             s2 = Shadow(); s2.live = [list(a) for a in sh.live]; s2.next = sh.next
-            s2.apply(op)
+            if op[0] == "step":
+                for i in sorted(op[1], key=int):
+                    for e in op[1][i]:
+                        if isinstance(e[0], str) and e[0] in ("create", "delete", "configure", "reset"):
+                            s2.apply(e)
+            else:
+                s2.apply(op)
             rec(prefix + [op], s2, depth + 1)
     rec([["create", 0], ["create", 1]], Shadow_with(2), 0)
     return out
@@ -375,10 +806,11 @@ def Shadow_with(n):
     return sh
 
 
-def shrink(dt, ops, key):
+def shrink(dt, ops, key, runner=None):
+    runner = runner or run_history
     def fails(c):
         try:
-            return any(k == key for k, _ in run_history(dt, c)["viol"])
+            return any(k == key for k, _ in runner(dt, c)["viol"])
         except Exception:
             return False
     ops = [json.loads(json.dumps(o)) for o in ops]
@@ -397,7 +829,9 @@ def shrink(dt, ops, key):
             if op[0] == "step" and op[1]:
                 for a in list(op[1]):
                     c = json.loads(json.dumps(op)); del c[1][a]; cands.append(c)
-            if op[0] == "send" and op[3]:
+                    for j in range(len(op[1][a])):
+                        c = json.loads(json.dumps(op)); del c[1][a][j]; cands.append(c)
+            if op[0] == "send" and len(op) > 3 and op[3]:
                 c = json.loads(json.dumps(op)); c[3] = []; cands.append(c)
             for c in cands:
                 cand = ops[:i] + [c] + ops[i + 1:]
@@ -421,60 +855,104 @@ def run(chk):
     ok, why = chk.prove(gen_lean(facts))
     chk.cov["trusted_base"] = [
         "Lean 4.33 kernel; axioms propext, Classical.choice, Quot.sound (audited per run via #print axioms)",
-        "hand-written model lean/Bptk/Core/C11.lean of enqueue_event/broadcast_event, SimultaneousScheduler.run_step, "
+        "hand-written model lean/Bptk/Core/C11.lean of enqueue_event/broadcast_event/random_events, SimultaneousScheduler.run_step "
+        "(atomic `stepFn`; with user code interleaved `midStep`; with handler tables / raising handlers `xstepFn`), "
         "Scheduler.handle_delayed_event, Agent.receive_event/handle_events and create/delete/configure/reset; tied to the "
         "source by this check's correspondence run and by one probe per repaired mechanism",
-        "delay -> steps: the model counts delays in steps; ceil(delay/dt) (Lean stepsOf, proved least k with k*dt >= delay) is "
-        "compared with the real handle_delayed_event countdown on a lattice of decimal (delay, dt) and in every correspondence case",
+        "delay -> steps: the model counts delays in steps; ceil(delay/dt) (Lean stepsOf, proved least k with k*dt >= delay and equal to "
+        "the ceiling in Q) is compared with the real handle_delayed_event countdown on a lattice of decimal (delay, dt), on random "
+        "decimals with up to 6 digits and quotients up to 10^6, and in every correspondence case; `delay_float_steps` proves the float "
+        "expression ceil(round(delay/dt, 9)) exact under the IEEE error bounds stated as hypotheses (division within relative 2^-51, "
+        "round(x, 9) correctly rounded, integers exact) - those bounds are trusted, not derived from a float formalisation",
         "decimal reading of Python floats (the harness writes delays/dt as short decimal strings and passes them as fractions to the model)",
+        "random_events: the random indices are an oracle in the model; the harness seeds Python's `random`, reads the drawn receivers "
+        "back and hands their indices to the model (reference check: every receiver is a live agent of the type, min(num, count) many)",
     ]
     chk.assumptions = [
-        "every agent has a handler for every (state, event name) it receives (agents whose state has no handler table keep events queued; unknown names are discarded - code behaviour outside the claim)",
-        "agents are created/deleted/reconfigured between steps (mid-step population changes are C12's subject); sends happen between steps, from act() and from handlers",
-        "delay and dt are decimals with quotient below 10^6 (the repaired conversion rounds delay/dt to 9 decimals before ceil)",
-        "ids are unique (C14)",
+        "full statement (C11_full, C11_midstep): every agent has a handler for every (state, event name) it receives and no handler "
+        "raises; on the extended machine (handler tables, states without table, unknown names, raising handlers) only routing, "
+        "never-early, at-most-once and conservation are claimed (C11_x_partial) - exact timing and order are shown to fail there "
+        "by kernel-checked witnesses replayed on the real code",
+        "population changes and sends may happen between steps, from act() and from handlers (C11_midstep; iteration semantics "
+        "of `for agent in model.agents` as in C12); changes from begin_round/end_round are not modelled; every agent loop ends",
+        "delay and dt are decimals with at most 6 digits, dt numerator <= 9*10^8 and quotient <= 10^6 (domain of delay_float_steps)",
+        "ids are unique (C14; re-proved here as C11_ids_unique and in XClauses)",
     ]
     rng = chk.rng.fork("c11")
-    cases = []                                    # (dt, ops, tag)
+    cases = []                                    # (dt, ops, tag, mode)   mode: "base" | "x"
     L = 3 if chk.quick else 5
     cdir = os.path.join(VERIF, "corpus", "C11")          # minimised past failing inputs, run first
     for fn in sorted(os.listdir(cdir)) if os.path.isdir(cdir) else []:
         if fn.endswith(".json"):
             c = json.load(open(os.path.join(cdir, fn)))
-            cases.append((c["dt"], c["ops"], "corpus"))
+            cases.append((c["dt"], c["ops"], "corpus", c.get("mode", "base")))
     n_corpus = len(cases)
     for ops in small_histories(L):
-        cases.append(("1", ops, "exh"))
+        cases.append(("1", ops, "exh", "base"))
+    Lw = 3 if chk.quick else 4
+    for ops in small_histories(Lw, wide=True):
+        cases.append(("1", ops, "exh", "base"))
     n_exh = len(cases) - n_corpus
-    for i in range(350 if chk.quick else 20000):
+    for w in X_WITNESSES:
+        cases.append(("1", w, "xwitness", "x"))
+    nrand = 400 if chk.quick else 20000
+    for i in range(nrand):
         dt = DTS[i % len(DTS)]
-        cases.append((dt, rand_history(rng, dt), "rand"))
+        j = i % 8
+        if j in (0, 1, 2):
+            cases.append((dt, rand_history(rng, dt), "rand", "base"))
+        elif j in (3, 4):
+            cases.append((dt, rand_midstep_history(rng, dt), "rand-midstep", "base"))
+        elif j == 5:
+            cases.append((dt, reconf_history(rng, dt), "rand-reconf", "base"))
+        else:
+            cases.append((dt, rand_xhistory(rng, dt), "rand-x", "x"))
     chk.cov["rule"] = (f"all histories of length {L} (after create a, create b; followed by 4 flushing steps) over the alphabet {{create, step, "
-                       "step with two sends from act(), delete oldest, configure, send to newest undelayed / delay 1 / oldest delay 2 / to an id "
-                       f"that does not exist}} ({n_exh} histories, dt 1), plus seeded random histories of 6..45 operations over dt in {DTS} with "
-                       "sends between steps, from act(), from handlers (chains), broadcasts, receivers alive/deleted/never created, delays "
-                       "None/0/multiples and non-multiples of dt; a case is (dt, history); non-trivial = at least one event handled after a "
-                       "deletion/configure/reset or at least one delayed event handled")
+                       "step with two sends from act(), delete oldest, configure (to the same count), send to newest undelayed / delay 1 / oldest "
+                       f"delay 2 / to an id that does not exist}}, all of length {Lw} over that alphabet plus {{reset, a step whose act() creates an "
+                       "agent, deletes the newest and sends to both, a step whose act() reconfigures to the same count, broadcasts and sends}} "
+                       f"({n_exh} histories, dt 1); the 4 kernel-checked extended witnesses; {nrand} seeded random histories over dt in {DTS}: 3/8 plain "
+                       "(sends between steps, from act(), from handlers, broadcasts, receivers alive/deleted/never created, delays None/0/"
+                       "multiples and non-multiples of dt), 2/8 with population changes DURING steps (create/delete/configure/reset/broadcast "
+                       "from act() and from handlers, agents created in a step acting in it), 1/8 reconfiguration to the same count / reset + "
+                       "creations / delete all + creations with events queued across it and random_events, 2/8 extended (handler tables, "
+                       "states without table, unknown names, handlers raising KeyError / RuntimeError, state changes from handlers); a case is "
+                       "(dt, history); non-trivial = at least one event handled after a deletion/configure/reset, or a delayed event handled, "
+                       "or a mid-step population change, or (extended) an event held / an aborted step")
     chk.cov["exhaustive_histories"] = n_exh
     chk.cov["corpus_cases"] = n_corpus
     chk.cov["exhaustive"] = False
     req, real, index = [], [], []
     first = {}
-    dist = {"ops": {}, "dt": {}, "sent": 0, "handled": 0, "discarded": 0, "steps": 0}
-    for dt, ops, tag in cases:
-        r = run_history(dt, ops)
-        index.append((len(req), dt, ops))
+    dist = {"ops": {}, "dt": {}, "kind": {}, "sent": 0, "handled": 0, "discarded": 0, "steps": 0, "midstep_steps": 0,
+            "aborted_steps": 0, "held_at_end": 0}
+    xwit_bad = None
+    for ci, (dt, ops, tag, mode) in enumerate(cases):
+        r = run_history(dt, ops) if mode == "base" else run_xhistory(dt, ops)
+        index.append((len(req), dt, ops, mode))
         req += r["req"]; real += r["real"]
         for o in ops:
             dist["ops"][o[0]] = dist["ops"].get(o[0], 0) + 1
         dist["dt"][dt] = dist["dt"].get(dt, 0) + 1
-        dist["sent"] += r["nsent"]; dist["handled"] += r["nhandled"]; dist["steps"] += r["steps"]; dist["discarded"] += r["ndropped"]
-        nontriv = r["nhandled"] > 0 and (any(o[0] in ("delete", "configure", "reset") for o in ops) or
-                                         any(o[0] == "send" and o[2] not in (None, "0") for o in ops))
-        chk.case((dt, show(ops)), nontrivial=nontriv, sample={"dt": dt, "ops": show(ops)} if tag == "rand" and len(ops) < 16 else None)
+        dist["kind"][tag] = dist["kind"].get(tag, 0) + 1
+        dist["sent"] += r["nsent"]; dist["handled"] += r["nhandled"]; dist["steps"] += r["steps"]
+        dist["discarded"] += r.get("ndropped", 0); dist["midstep_steps"] += r.get("midsteps", 0)
+        dist["aborted_steps"] += r.get("aborted", 0); dist["held_at_end"] += r.get("held", 0)
+        if mode == "base":
+            nontriv = r["nhandled"] > 0 and (any(o[0] in ("delete", "configure", "reset") for o in ops) or
+                                             any(o[0] == "send" and o[2] not in (None, "0") for o in ops) or r["midsteps"] > 0)
+        else:
+            nontriv = r["nhandled"] > 0 and (r["aborted"] > 0 or r["held"] > 0 or any(o[0] in ("state", "createT") for o in ops))
+        chk.case((dt, mode, show(ops)), nontrivial=nontriv,
+                 sample={"dt": dt, "mode": mode, "ops": show(ops)} if tag.startswith("rand") and len(ops) < 14 else None)
+        if tag == "xwitness":
+            hl = handled_of(r)
+            got = " ".join(f"{st}:{[q for s2, _, q in hl if s2 == st]}" for st in sorted({h[0] for h in hl}))
+            if got != X_WITNESS_EXPECT[ci - n_corpus - n_exh] and xwit_bad is None:
+                xwit_bad = (ops, got, X_WITNESS_EXPECT[ci - n_corpus - n_exh])
         for k, text in r["viol"]:
             if k not in first:
-                first[k] = (dt, ops, text)
+                first[k] = (dt, ops, text, mode)
     chk.cov["input_distribution"] = dist
     # ---- delay -> steps lattice: Lean stepsOf vs exact fractions vs the real countdown
     lat = []
@@ -485,12 +963,18 @@ def run(chk):
         for j in range(1, 60 if chk.quick else 400):
             lat.append((f"{j / 100:.2f}", dt))
         lat += [("1.0", dt), ("2", dt), ("3.0", dt), ("10", dt)]
+    # the domain of `delay_float_steps` beyond the lattice: long decimals, large quotients (<= 10^6), random
+    for _ in range(300 if chk.quick else 5000):
+        p = rng.range(1, 6)
+        tn = rng.range(1, 10 ** p)
+        dn = rng.below(min(10 ** 6 * tn, 10 ** 12) + 1) if rng.chance(1, 3) else rng.below(50 * tn + 1)
+        lat.append((dec_str(dn, p), dec_str(tn, p)))
     lat_req = [f"steps {frac_str(a)} {frac_str(b)}" for a, b in lat]
     lat_real, lat_bad = [], None
     for a, b in lat:
         e = exact_steps(a, b)
         lat_real.append(str(e))
-        c = countdown_steps(a, b)
+        c = first_eval(a, b) if e > 2000 else countdown_steps(a, b)
         if c != e and lat_bad is None:
             lat_bad = (a, b, c, e)
     chk.cov["delay_lattice_pairs"] = len(lat)
@@ -499,15 +983,27 @@ def run(chk):
     # canonicalise the model's step lines the same way as the implementation's
     exp = real + lat_real
     sent_at = {}
+    now = 0
     for i, (q, m) in enumerate(zip(req, model)):
-        if q == "new":
+        if q in ("new", "xnew"):
             sent_at = {}
             now = 0
-        elif q == "step" and m.startswith("step="):
+        elif q in ("step", "xstep") or q.startswith("stepx "):
+            if not m.startswith("step="):
+                continue
             p = dict(x.split("=", 1) for x in m.split(";"))
             now = int(p["step"])
             hs = [] if p["h"] == "-" else [tuple(map(int, x.split(":"))) for x in p["h"].split(",")]
-            model[i] = f"step={p['step']};h={canon_handled(hs, sent_at)}"      # when an event is discarded is not compared
+            h = canon_handled(hs, sent_at)                                       # when an event is discarded is not compared
+            if q == "step":
+                model[i] = f"step={p['step']};h={h}"
+            elif q == "xstep":
+                model[i] = f"step={p['step']};h={h};ab={p['ab']};in={p['in']}"
+            else:
+                model[i] = f"step={p['step']};h={h};e={p['e']};a={p['a']};stuck={p['stuck']}"
+                if p["e"] != "-":
+                    for x in p["e"].split(","):
+                        sent_at[int(x.split(">")[0])] = now
         elif m.startswith("seq="):
             sent_at[int(m[4:])] = now
         elif m.startswith("seqs=") and m != "seqs=-":
@@ -520,15 +1016,16 @@ def run(chk):
     if not chk.cov["samples"]:
         chk.cov["samples"].append({"dt": cases[0][0], "ops": show(cases[0][1])})
     # ---- decide
-    for key, (dt, ops, text) in first.items():
-        small = shrink(dt, ops, key)
-        r = run_history(dt, small)
+    for key, (dt, ops, text, mode) in first.items():
+        runner = run_history if mode == "base" else run_xhistory
+        small = shrink(dt, ops, key, runner)
+        r = runner(dt, small)
         t = next((t for k, t in r["viol"] if k == key), text)
-        chk.add_finding(key, f"dt={dt}, history {show(small)}: {t}", {"dt": dt, "ops": small, "violations": r["viol"]})
+        chk.add_finding(key, f"dt={dt}, history {show(small)}: {t}", {"dt": dt, "mode": mode, "ops": small, "violations": r["viol"]})
     if lat_bad is not None and "delay-steps" not in first:
         a, b, c, e = lat_bad
         chk.add_finding("delay-steps", f"handle_delayed_event keeps DelayedEvent(delay={a}) back for {c} steps with dt={b}; ceil(delay/dt) = {e}",
-                        {"dt": b, "ops": [["create", 0], ["send", 0, a, []]] + [["step", {}]] * (max(c, e) + 2)})
+                        {"dt": b, "mode": "base", "ops": [["create", 0], ["send", 0, a, []]] + [["step", {}]] * (min(max(c, e), 3000) + 2)})
     for name, keyname in (("routesById", "wrong-receiver"), ("delayStepsExact", "delay-steps"), ("requeueFifo", "same-step-order")):
         if name == "routesById" and "receiver-lookup-raises" in first:
             continue
@@ -538,6 +1035,11 @@ def run(chk):
     if not ok:
         chk.add_finding("obligation", f"proof obligations of C11 no longer check: {why}",
                         {"theorem": "Bptk.C11.Gen.holds / Bptk.Props.C11", "detail": why}, found_input=False)
+    if xwit_bad is not None and not first:
+        ops, got, want = xwit_bad
+        chk.add_finding("correspondence", f"the kernel-checked extended witness {show(ops)} gives the handler log {got!r} on the real code, "
+                                          f"the theorem states {want!r}",
+                        {"correspondence": "Props/C11 X_witness_* vs Agent.handle_events", "dt": "1", "mode": "x", "ops": ops}, found_input=False)
     if diff is not None and not first:
         allreq = req + lat_req
         if diff >= len(req):
@@ -545,12 +1047,107 @@ def run(chk):
                             {"correspondence": "Drive/C11 steps vs fractions.Fraction", "request": allreq[diff],
                              "model": model[diff] if diff < len(model) else None, "reference": exp[diff]}, found_input=False)
         else:
-            start, dt, ops = [x for x in index if x[0] <= diff][-1]
-            chk.add_finding("correspondence", f"model and implementation disagree at protocol line {diff} ({allreq[diff]!r}) of history {show(ops)} dt={dt}",
-                            {"correspondence": "Drive/C11 vs BPTK_Py SimultaneousScheduler", "dt": dt, "ops": ops, "line": diff - start,
+            start, dt, ops, mode = [x for x in index if x[0] <= diff][-1]
+            small = shrink_corr(dt, ops, mode)
+            chk.add_finding("correspondence", f"model and implementation disagree at protocol line {diff} ({allreq[diff]!r}) of history {show(ops)} dt={dt}"
+                                              + (f"; shrunk to {show(small)}" if small is not None else ""),
+                            {"correspondence": "Drive/C11 vs BPTK_Py SimultaneousScheduler / Agent.handle_events", "dt": dt, "mode": mode,
+                             "ops": small if small is not None else ops, "line": diff - start,
                              "request_context": allreq[max(start, diff - 10):diff + 1],
                              "model": model[diff] if diff < len(model) else None, "impl": exp[diff] if diff < len(exp) else None},
                             found_input=False)
+
+
+def handled_of(r):
+    """(step, agent, seq) triples of an extended run, from its canonical step lines (witness comparison)."""
+    out = []
+    for q, a in zip(r["req"], r["real"]):
+        if q != "xstep":
+            continue
+        head, rest = a.split(";h=", 1)
+        st = int(head.split("=")[1])
+        h = rest.rsplit(";ab=", 1)[0]
+        if h == "-":
+            continue
+        for grp in h.split(";"):
+            ag, seqs = grp.split(":")
+            for sq in seqs.split(","):
+                out.append((st, int(ag.split("@")[0]), int(sq)))
+    return out
+
+
+def dec_str(n, p):
+    """n / 10^p as a decimal string with p digits after the point"""
+    s_ = str(n).rjust(p + 1, "0")
+    return s_[:-p] + "." + s_[-p:]
+
+
+def first_eval(delay, dt):
+    """Number of steps the real handle_delayed_event announces at its first evaluation (large quotients: the countdown
+    itself is checked on the smaller ones): stored delay afterwards = (k-1)*dt."""
+    from BPTK_Py import DelayedEvent, Scheduler
+    s_ = Scheduler()
+    e = DelayedEvent("ev", 0, 0, num(delay), None)
+    if s_.handle_delayed_event(e, dt=float(dt)) is not None:
+        return 0
+    return int(round(e.delay / float(dt))) + 1
+
+
+def model_vs_impl(r):
+    """first differing protocol line of one run, or None"""
+    model = [m.split(";steps=")[0] for m in drive("C11", r["req"])]
+    sent_at, now = {}, 0
+    for i, (q, m) in enumerate(zip(r["req"], model)):
+        if q in ("step", "xstep") or q.startswith("stepx "):
+            if not m.startswith("step="):
+                continue
+            p = dict(x.split("=", 1) for x in m.split(";"))
+            now = int(p["step"])
+            hs = [] if p["h"] == "-" else [tuple(map(int, x.split(":"))) for x in p["h"].split(",")]
+            h = canon_handled(hs, sent_at)
+            if q == "step":
+                model[i] = f"step={p['step']};h={h}"
+            elif q == "xstep":
+                model[i] = f"step={p['step']};h={h};ab={p['ab']};in={p['in']}"
+            else:
+                model[i] = f"step={p['step']};h={h};e={p['e']};a={p['a']};stuck={p['stuck']}"
+                if p["e"] != "-":
+                    for x in p["e"].split(","):
+                        sent_at[int(x.split(">")[0])] = now
+        elif m.startswith("seq="):
+            sent_at[int(m[4:])] = now
+        elif m.startswith("seqs=") and m != "seqs=-":
+            for x in m[5:].split(","):
+                sent_at[int(x.split(">")[0])] = now
+    for i, (a, b) in enumerate(zip(model, r["real"])):
+        if a != b:
+            return i, a, b
+    return None
+
+
+def shrink_corr(dt, ops, mode, budget=60):
+    """greedy deletion of operations while model and implementation still disagree (bounded number of driver runs)"""
+    runner = run_history if mode == "base" else run_xhistory
+    def differs(c):
+        try:
+            return model_vs_impl(runner(dt, c)) is not None
+        except Exception:
+            return False
+    try:
+        if not differs(ops):
+            return None
+        ops = list(ops)
+        i = 0
+        while i < len(ops) and budget > 0:
+            cand = ops[:i] + ops[i + 1:]
+            budget -= 1
+            if cand and differs(cand):
+                ops = cand
+            else:
+                i += 1
+        return ops
+    except Exception:
+        return None
 
 
 def replay(path):
@@ -561,12 +1158,14 @@ def replay(path):
         f = probe()
         print("probes on the current tree:", f)
         return 0 if all(f.values()) else 1
-    res = run_history(r["dt"], r["ops"])
-    print("dt:", r["dt"])
+    mode = r.get("mode", "base")
+    res = (run_history if mode == "base" else run_xhistory)(r["dt"], r["ops"])
+    print("dt:", r["dt"], "mode:", mode)
     print("ops:", show(r["ops"]))
     print("violations of the statement on the current tree:", res["viol"])
-    if not res["viol"] and "line" in r:
-        model = drive("C11", res["req"])
-        print("implementation:", res["real"][-6:])
-        print("model         :", model[-6:])
-    return 1 if res["viol"] else 0
+    bad = bool(res["viol"])
+    if not res["viol"] and ("line" in r or "correspondence" in r):
+        d = model_vs_impl(res)
+        print("model vs implementation, first difference:", d)
+        bad = d is not None
+    return 1 if bad else 0
